@@ -13,6 +13,7 @@
      model_constraint_attributes.go  (exact checks)
      model_objective_*.go   Value
      factory/*.go           how JSON fields become expressions / constraints
+     factory/duration_groups_expression.go, factory/model.go  duration groups
 
    All quantities are integers (the correspondence domain is integer-valued
    inputs, on which the float64 computations of the code are exact). *)
@@ -61,7 +62,8 @@ Record options := mkOptions {
   o_dis_max_wait_stop : bool; o_dis_max_wait_vehicle : bool; o_dis_attributes : bool;
   o_dis_start_time : bool; o_dis_durations : bool;
   (* objective factors; 0 switches the term off (factory appends a term only when > 0) *)
-  o_f_activation : Z; o_f_travel : Z; o_f_vehicles_duration : Z; o_f_unplanned : Z
+  o_f_activation : Z; o_f_travel : Z; o_f_vehicles_duration : Z; o_f_unplanned : Z;
+  o_dis_dgroups : bool           (* duration groups disabled: group durations count as 0 *)
 }.
 
 (* a user-supplied constraint (C19): an exact check with an estimate that
@@ -80,7 +82,8 @@ Record input := mkInput {
   in_duration : list (list Z);        (* (n + 2v) x (n + 2v) *)
   in_distance : list (list Z);
   in_nres : nat;                      (* number of resource names *)
-  in_opts : options
+  in_opts : options;
+  in_dgroups : list (list nat * Z)    (* duration groups: disjoint sets of stops, group duration *)
 }.
 
 (* ------------------------------------------------------------------ *)
@@ -122,6 +125,28 @@ Definition travel_distance (inp : input) (a b : nat) : Z := mat (in_distance inp
 Definition stop_duration (inp : input) (s : nat) : Z :=
   if o_dis_durations (in_opts inp) then 0
   else if is_input_stop inp s then is_duration (get_stop inp s) else 0.
+
+(* duration groups (model_vehicle_type.go TemporalValues, durationGroupsExpression):
+   the group duration of [to]'s group is paid when [from] is not in that group *)
+Fixpoint dgroup_find (gs : list (list nat * Z)) (i : nat) (s : nat) : option nat :=
+  match gs with
+  | [] => None
+  | (ss, _) :: r => if existsb (Nat.eqb s) ss then Some i else dgroup_find r (S i) s
+  end.
+Definition dgroup_of (inp : input) (s : nat) : option nat := dgroup_find (in_dgroups inp) 0 s.
+Definition dgroup_duration (inp : input) (g : nat) : Z := snd (nth g (in_dgroups inp) ([], 0)).
+Definition dgroup_extra (inp : input) (from to : nat) : Z :=
+  if o_dis_dgroups (in_opts inp) then 0 else
+  match dgroup_of inp to with
+  | None => 0
+  | Some g =>
+      match dgroup_of inp from with
+      | Some g' => if Nat.eqb g g' then 0 else dgroup_duration inp g
+      | None => dgroup_duration inp g
+      end
+  end.
+Definition stop_duration_at (inp : input) (from to : nat) : Z :=
+  stop_duration inp to + dgroup_extra inp from to.
 
 Definition stop_windows (inp : input) (s : nat) : list (Z * Z) :=
   if o_dis_windows (in_opts inp) then []
@@ -177,7 +202,7 @@ Definition temporal_values (inp : input) (departure : Z) (from to : nat) : Z * Z
   let arrival := departure + travel in
   let es := to_earliest_start (stop_windows inp to) arrival in
   let start := Z.max arrival es in
-  (travel, arrival, start, start + stop_duration inp to).
+  (travel, arrival, start, start + stop_duration_at inp from to).
 
 (* ------------------------------------------------------------------ *)
 (* Expressions cached per stop: one level per resource, then distance  *)
